@@ -1,10 +1,11 @@
 (* C09 correspondence: one harness line -> verdict.  Line forms (see harness/c09/main.go):
 
-     (lex <hexsrc> <tok> ...)      the implementation's token stream, recorded by VerifLex (verif_lexer.go)
-         <tok> = (<kind> <hex l.token> <l.offset> <inString 0|1> <ParseError.Offset> <hex ParseError.Token>)
+     byte strings <h> = (h <hex chunk of at most 16 bytes> ...)
+     (lex <h src> <tok> ...)       the implementation's token stream, recorded by VerifLex (verif_lexer.go)
+         <tok> = (<kind> <h l.token> <l.offset> <inString 0|1> <ParseError.Offset> <h ParseError.Token>)
          <kind> = eof | (c <byte>) | <goyacc token constant name>
        verdict: ok, or (bad <index> <the model's token>) at the first difference
-     (ops <hexsrc> <ast> <hex String()>)   operator sublanguage: what gojq.Parse built and printed
+     (ops <h src> <ast> <h String()>)   operator sublanguage: what gojq.Parse built and printed
          <ast> = (a <hexname>) | (p <ast>) | (b <OpName> <ast> <ast>) | err | other
        verdict: the model (Lexer.v + the operator-precedence parser driven by the tables regenerated from
        parser.go.y) parses to the same AST / also rejects, and its printer emits the same bytes.
@@ -19,6 +20,23 @@ Notation SA := Sexp.Atom.
 
 Definition print_nat (n : nat) : list N := print_N (N.of_nat n).
 
+(* byte strings travel as (h <hex chunk> ...), at most 16 bytes per chunk (Sexp.tokens is cubic in the length
+   of an atom once extracted: it reverses the accumulated atom eagerly at every character) *)
+Fixpoint chunks (fuel : nat) (l : list N) : list (list N) :=
+  match fuel with
+  | O => []
+  | S f => match l with [] => [] | _ => firstn 16 l :: chunks f (skipn 16 l) end
+  end.
+Definition enc_hexl (l : list N) : sexp := SList (A "h" :: map (fun c => SA (print_hex c)) (chunks (S (List.length l)) l)).
+Fixpoint dec_chunks (cs : list sexp) : option (list N) :=
+  match cs with
+  | [] => Some []
+  | SA a :: r => match parse_hex a, dec_chunks r with Some x, Some y => Some (x ++ y) | _, _ => None end
+  | _ => None
+  end.
+Definition dec_hexl (e : sexp) : option (list N) :=
+  match e with SList (t :: cs) => if atom_is "h" t then dec_chunks cs else None | _ => None end.
+
 Definition enc_kind (k : tk) : sexp :=
   match k with
   | KEOF => A "eof"
@@ -27,9 +45,9 @@ Definition enc_kind (k : tk) : sexp :=
   end.
 
 Definition enc_tok (t : ltok) : sexp :=
-  SList [enc_kind (tkind t); SA (print_hexs (ttext t)); SA (print_nat (tend t));
+  SList [enc_kind (tkind t); enc_hexl (ttext t); SA (print_nat (tend t));
          SA (if tinstr t then codes "1" else codes "0");
-         SA (print_nat (fst (terr t))); SA (print_hexs (snd (terr t)))].
+         SA (print_nat (fst (terr t))); enc_hexl (snd (terr t))].
 
 Definition sexp_eqb (a b : sexp) : bool := list_N_eqb (print a) (print b).
 
@@ -124,19 +142,19 @@ Definition run_ops (use_gen : bool) (src : list N) (ast : sexp) (str : list N) :
   | Some (Some e) =>
       let printed := print_bytes (if use_gen then gen_op_bytes else jq_op_bytes) e in
       if sexp_eqb (enc_expr e) ast then
-        if list_N_eqb printed str then A "ok" else SList [A "bad"; A "print"; SA (print_hexs printed)]
+        if list_N_eqb printed str then A "ok" else SList [A "bad"; A "print"; enc_hexl printed]
       else SList [A "bad"; enc_expr e]
   end.
 
 Definition run_sexp (use_gen : bool) (e : sexp) : sexp :=
   match e with
-  | SList (k :: SA h :: rest) =>
-      match parse_hexs h with
+  | SList (k :: h :: rest) =>
+      match dec_hexl h with
       | Some src =>
           if atom_is "lex" k then (if use_gen then run_lex src rest else A "ok")
           else if atom_is "ops" k then
             match rest with
-            | [ast; SA s] => match parse_hexs s with Some str => run_ops use_gen src ast str | None => A "undecodable" end
+            | [ast; s] => match dec_hexl s with Some str => run_ops use_gen src ast str | None => A "undecodable" end
             | _ => A "undecodable"
             end
           else A "undecodable"
